@@ -596,8 +596,15 @@ class P:
             on = None
             if self.accept_kw('ON'):
                 on = self.expr()
-            elif self.is_kw('USING'):
-                raise SqlUnsupported('JOIN ... USING')
+            elif self.accept_kw('USING'):
+                # JOIN ... USING (c1, ...): equality of the named columns of both sides.  (Limitation: the column is not
+                # coalesced into one for `SELECT *` / unqualified references -- those raise 1052 here, they would not in MySQL.)
+                self.expect_op('(')
+                cols = [self.ident().lower()]
+                while self.accept_op(','):
+                    cols.append(self.ident().lower())
+                self.expect_op(')')
+                on = ('using', cols)
             left = ('join', kind, left, right, on)
 
     def table_factor(self):
@@ -779,7 +786,18 @@ class P:
     def delete(self):
         self.expect_kw('DELETE')
         if not self.is_kw('FROM'):
-            raise SqlUnsupported('multi-table DELETE')
+            # DELETE t FROM <table references> [WHERE ...]: rows of the one named table that take part in a matching join row
+            target = self.ident().lower()
+            if self.is_op(',') or self.is_op('.'):
+                raise SqlUnsupported('multi-table DELETE with several / qualified targets')
+            self.expect_kw('FROM')
+            refs = self.table_refs()
+            where = None
+            if self.accept_kw('WHERE'):
+                where = self.expr()
+            if self.is_kw('ORDER', 'LIMIT'):
+                raise self.err('ORDER BY / LIMIT are not allowed in a multi-table DELETE')
+            return ('delete', target, ('refs', refs), where, None, None)
         self.expect_kw('FROM')
         table = self.ident().lower()
         alias = table
